@@ -111,8 +111,10 @@ def solve_all(prop, target, fv, obs, repo, tier, timeout_ms, cross, budget_s=Non
     t_start = time.time()
     recs = {}
     hard = []
+    hints = load_hints(prop)
     for ob in obs:
-        solve.solve_one(ob, timeout_ms=2000, use_cvc5=False, cross=False)
+        solve.solve_one(ob, timeout_ms=2000, use_cvc5=True, cross=False, early_cvc5_ms=4000, stop_after_early=True,
+                        prefer_cvc5=obl_key(ob.name) in hints)
         rec = obligation_record(ob)
         if ob.verdict == "refuted":
             confirm_refutation(prop, target, fv.sha, ob, rec, repo, fv)
@@ -131,12 +133,21 @@ def solve_all(prop, target, fv, obs, repo, tier, timeout_ms, cross, budget_s=Non
             rec["detail"] = (rec.get("detail") or "") + " per-function solver budget exhausted"
             continue
         ob.verdict, ob.model, ob.via = None, None, None
-        solve.solve_one(ob, timeout_ms=int(min(timeout_ms, left * 1000 / 3 + 1000)), cross=False, finite=False, skip_short=True)
+        tmo = int(min(timeout_ms, left * 1000 / 3 + 1000))
+        solve.solve_one(ob, timeout_ms=tmo, cross=False, finite=True, skip_short=True)
         rec = obligation_record(ob)
-        if cand:
-            rec["discarded_candidate"] = cand
         if ob.verdict == "refuted":
             confirm_refutation(prop, target, fv.sha, ob, rec, repo, fv)
+            if rec.get("via") == "finite-instantiation" and not rec.get("confirmed"):
+                # the candidate of the weaker (finitely instantiated) formula did not replay: keep it for the report, go on proving
+                cand = {"inputs": rec.get("inputs"), "replay": rec.get("replay_result"), "replay_path": rec.get("replay_path")}
+                ob.verdict, ob.model, ob.via = None, None, None
+                solve.solve_one(ob, timeout_ms=tmo, cross=False, finite=False, skip_short=True)
+                rec = obligation_record(ob)
+                if ob.verdict == "refuted":
+                    confirm_refutation(prop, target, fv.sha, ob, rec, repo, fv)
+        if cand:
+            rec["discarded_candidate"] = cand
         recs[ob.name] = rec
     if cross:
         for ob in obs:
@@ -258,6 +269,15 @@ def run_replay(path, repo):
 def obl_key(name):
     """function / kind[label] of an obligation name (path id dropped)"""
     return name.split("@")[0]
+
+
+def load_hints(prop):
+    """obligation keys last discharged by cvc5 (pure scheduling hint: which solver to ask first)"""
+    p = os.path.join(HERE, "baseline", "solver_hints.json")
+    if not os.path.exists(p):
+        return set()
+    with open(p) as f:
+        return set(json.load(f).get(prop, []))
 
 
 def load_baseline(prop):
@@ -536,6 +556,11 @@ def check(prop, tier, repo, seed, jobs):
         allb[prop] = summ
         with open(bp, "w") as f:
             json.dump(allb, f, indent=0, sort_keys=True)
+        hp = os.path.join(HERE, "baseline", "solver_hints.json")
+        allh = json.load(open(hp)) if os.path.exists(hp) else {}
+        allh[prop] = sorted({obl_key(ob["name"]) for res in vres for ob in res.get("obligations", []) if "cvc5" in (ob.get("solver") or "")})
+        with open(hp, "w") as f:
+            json.dump(allh, f, indent=0, sort_keys=True)
 
     for l in known_lines:
         print(l)
